@@ -938,14 +938,32 @@ enum Res {
     Timeout,
 }
 
-async fn run_case(mock: &Mock, case: &Case) -> (Res, Vec<Vec<u8>>) {
+/// C01 mode: the adapters live as long as the application's do (one instance behind an Arc for all
+/// connections), so whatever an instance remembers between calls is part of what is observed.
+struct Shared {
+    direct: MojangAdapter,
+    configured: Option<passage::adapter::authentication::DynAuthenticationAdapter>,
+}
+
+async fn run_case(mock: &Mock, case: &Case, shared: Option<&Shared>) -> (Res, Vec<Vec<u8>>) {
     *mock.plan.lock().unwrap_or_else(|e| e.into_inner()) = case.plan.clone();
     mock.seen.lock().unwrap_or_else(|e| e.into_inner()).clear();
     let client: SocketAddr = SocketAddr::from(([127, 0, 0, 1], 54321));
     // every other case goes through the adapter as the application builds it from its
     // configuration (passage::adapter::authentication), the rest calls MojangAdapter directly
     let via_config = case.idx % 2 == 1;
-    let outcome = if via_config {
+    let outcome = if let Some(sh) = shared {
+        match (&sh.configured, via_config) {
+            (Some(adapter), true) => {
+                let fut = adapter.authenticate(&client, ("play.example.org", 25565), 767, (case.name.as_str(), &case.uuid), &case.secret, &case.public);
+                tokio::time::timeout(Duration::from_secs(20), fut).await
+            }
+            _ => {
+                let fut = sh.direct.authenticate(&client, ("play.example.org", 25565), 767, (case.name.as_str(), &case.uuid), &case.secret, &case.public);
+                tokio::time::timeout(Duration::from_secs(20), fut).await
+            }
+        }
+    } else if via_config {
         use passage::adapter::authentication::DynAuthenticationAdapter;
         use passage::config::{AuthenticationAdapter as AuthCfg, MojangAuthentication};
         match DynAuthenticationAdapter::from_config(AuthCfg::Mojang(MojangAuthentication { server_id: case.server_id.clone() })).await {
@@ -999,8 +1017,9 @@ fn main() {
     );
     report.set_max_samples(8);
     let hash_only = cli.prop == "C11";
+    let shared_mode = cli.prop == "C01";
     HASH_ONLY.store(hash_only, std::sync::atomic::Ordering::Relaxed);
-    if cli.prop != "C12" && !hash_only {
+    if cli.prop != "C12" && !hash_only && !shared_mode {
         report.inconclusive_fatal(&format!("vp-mojang decides C12 (and the adapter clause of C11), not {}", cli.prop));
         std::process::exit(report.finish());
     }
@@ -1046,6 +1065,31 @@ fn main() {
         for i in 0..random {
             v.push(gen_case(cli.seed, 1_000_000 + i, None));
         }
+        if shared_mode {
+            // C01: long-lived adapter instances, the same few names (and the same server id) over and
+            // over with different secrets and different verdicts of the session server
+            let mut prng = Rng::stream(cli.seed, u64::MAX - 1);
+            let pool: Vec<String> = (0..6).map(|i| if i < 4 { prng.ascii_name(3, 16) } else { gen_name(&mut prng).0 }).collect();
+            for (i, c) in v.iter_mut().enumerate() {
+                c.server_id = String::new();
+                if i % 4 != 3 {
+                    c.name = pool[prng.usize_below(pool.len())].clone();
+                    c.category = "repeated".into();
+                    c.plan = gen_plan(&mut prng, &c.name);
+                }
+                if i % 8 == 0 && i > 0 {
+                    // the very same connection parameters as an earlier, possibly successful call
+                    c.secret = Vec::new();
+                }
+            }
+            let fix: Vec<(usize, Vec<u8>, Vec<u8>)> = v.iter().enumerate().filter(|(i, _)| i % 8 == 7).map(|(i, c)| (i + 1, c.secret.clone(), c.public.clone())).collect();
+            for (j, secret, public) in fix {
+                if let Some(c) = v.get_mut(j) {
+                    c.secret = secret;
+                    c.public = public;
+                }
+            }
+        }
         v
     };
 
@@ -1067,9 +1111,31 @@ fn main() {
         let listener = TcpListener::from_std(std_listener).expect("tokio listener");
         tokio::spawn(serve(listener, mock.clone()));
 
+        let shared = if shared_mode {
+            use passage::adapter::authentication::DynAuthenticationAdapter;
+            use passage::config::{AuthenticationAdapter as AuthCfg, MojangAuthentication};
+            Some(Shared {
+                direct: MojangAdapter::default().with_server_id(String::new()),
+                configured: DynAuthenticationAdapter::from_config(AuthCfg::Mojang(MojangAuthentication { server_id: String::new() })).await.ok(),
+            })
+        } else {
+            None
+        };
+        if shared_mode && shared.as_ref().map(|s| s.configured.is_none()).unwrap_or(false) {
+            report.inconclusive("the configured authentication adapter could not be built; only the directly constructed one was driven");
+        }
+        let mut ok_by_name: std::collections::BTreeMap<String, u64> = Default::default();
         for case in &cases {
             let hash = refcrypto::minecraft_hash_ref(&case.server_id, &case.secret, &case.public);
-            let (res, seen) = run_case(&mock, case).await;
+            let (res, seen) = run_case(&mock, case, shared.as_ref()).await;
+            if shared_mode {
+                if ok_by_name.get(&case.name).copied().unwrap_or(0) > 0 {
+                    report.count(&format!("calls for a name that was vouched for earlier on the same adapter, answered now: {}", case.plan.kind), 1);
+                }
+                if matches!(res, Res::Ok(_)) {
+                    *ok_by_name.entry(case.name.clone()).or_default() += 1;
+                }
+            }
             let key = class_key(case, &hash);
             report.eval(key.as_deref());
             report.count(&format!("cases with name category {}", case.category), 1);
